@@ -3,7 +3,7 @@ from rtmon import shape
 
 LEVEL = 'exploration'
 EXHAUSTIVE = False
-JOB_TIMEOUT = 2400
+JOB_TIMEOUT = 5400
 PID = 'C11'
 RULE = ("every resolution value of every date-time entity emitted on W-corpus (supported inputs, 9 cultures), W-noise, W-multi, the generated expressions of C06-C10 and a list of invalid dates/times (February 30, 2019-02-30, 31/04/2019, 24:30, 25:00, 29 February of non-leap years ...). Oracle by declared type: date/time/datetime valid; duration non-negative seconds; ranges well formed and start<end for daterange without Mod; definite TIMEX => value equals it; entity type_name == 'datetimeV2.'+value type; 'not resolved' allowed. non-trivial = the call produced at least one resolution value; distinct = distinct (culture, query, reference).")
 
